@@ -156,7 +156,7 @@ def list_harness(op, n, m, mask=None):
                     pass
                 else:
                     c05.apply(op, ref, key, rnew, k, False)
-            except (IndexError, ValueError, TypeError) as e:
+            except (IndexError, ValueError, TypeError, OverflowError) as e:
                 exc_r = type(e).__name__
             if exc != "TraitError" and op != "sort":
                 ex.check(exc == exc_r, "where the trait has no objection the operation raises exactly where list raises")
